@@ -25,6 +25,8 @@ def split_scenarios(path):
     with open(path) as f:
         for line in f:
             line = line.rstrip('\n')
+            if not line:
+                continue
             if line.startswith('S '):
                 name = line[2:]
                 cur = []
